@@ -281,6 +281,12 @@ def R3_reference_update(run):
     old = stored_under([assume(age_at, "Gt", is_age, True)])
     ok = const_val(old.get("volatility_reference", ("x",))) == 0 and is_param(old.get("tick_group_index_reference", ("x",)), "tick_group_index") and is_param(old.get("last_reference_update_timestamp", ("x",)), "current_timestamp")
     run.check("R3", "too-old-resets", ok, "references older than one hour are not reset to (group, 0, now): %s" % {k: sh(v, 40) for k, v in old.items()}, loc=fn.loc(), detail="age > 3600 => (group, 0, now)")
+    # ... whatever the elapsed time since the last update or major swap says: the age test comes first, and an old reference met in
+    # the decay window is reset, not decayed
+    old2 = stored_under([assume(age_at, "Gt", is_age, True), assume(filt_at, "Lt", is_elapsed, False), assume(dec_at, "Lt", is_elapsed, True)])
+    ok = cfg.dominates(fn, age_at.block, filt_at.block) and cfg.dominates(fn, age_at.block, dec_at.block) and const_val(old2.get("volatility_reference", ("x",))) == 0
+    run.check("R3", "too-old-first", ok, "the one-hour age test of update_reference does not come before the filter / decay window tests (an old reference inside the decay window is %s)" %
+              {k: sh(v, 40) for k, v in old2.items()}, loc=fn.loc(), detail="age > 3600 is tested first")
     hf = stored_under([assume(age_at, "Gt", is_age, False), assume(filt_at, "Lt", is_elapsed, True)])
     run.check("R3", "high-frequency-unchanged", hf == {}, "within the filter period the references are modified: %s" % sorted(hf), loc=fn.loc(), detail="elapsed < filter => no store")
     dc = stored_under([assume(age_at, "Gt", is_age, False), assume(filt_at, "Lt", is_elapsed, False), assume(dec_at, "Lt", is_elapsed, True)])
@@ -523,6 +529,14 @@ def R6_stepping(run):
         nm = lambda x: arg_name(x) or sh(x, 40)
         num, den = P.poly(form[0][2][0], nm), P.poly(form[0][2][1], nm)
         ok = num == {tuple(sorted(["adaptive_fee_control_factor", "volatility_accumulator", "volatility_accumulator", "tick_group_size", "tick_group_size"])): 1} and den == {(): 10 ** 13}
+    # the u128 quotient is capped before it is narrowed: no `as` cast to a narrower integer is applied to a value that is not
+    # already bounded by the hard limit (a 2^32 rate truncates to 0 otherwise)
+    from rules.C06 import narrowing_casts
+    uncapped = [(src, ty, t_) for (_, src, ty, t_) in narrowing_casts(fn)
+                if mentions(t_, lambda x: x[0] == "call" and x[1].endswith("ceil_division_u128")) and
+                not (strip(t_)[0] == "call" and strip(t_)[1].rsplit("::", 1)[-1] == "min" and any(const_val(z) is not None for z in strip(t_)[2]))]
+    run.check("R6", "cap-before-narrowing", not uncapped, "compute_adaptive_fee_rate narrows the rate before capping it: %s" % ["%s as %s" % (sh(t_, 50), ty) for (_s, ty, t_) in uncapped],
+              loc=fn.loc(), detail="min(quotient, FEE_RATE_HARD_LIMIT) as u32, never (quotient as u32).min(..)")
     run.check("R6", "rate-formula", ok, "compute_adaptive_fee_rate is not ceil_division_u128(control_factor * (accumulator * tick_group_size)^2, 100_000 * 10_000 * 10_000)", loc=fn.loc(),
               detail="ceil(factor * (acc * size)^2 / 1e13)")
     sw = facts.need_fn(SL.SWAP)
